@@ -4,7 +4,13 @@ seeded/RESULTS.md and the 'checks' part of each meta.json."""
 import json, os, subprocess, sys, concurrent.futures as cf
 root = '/verif/seeded'
 dirs = sorted(d for d in os.listdir(root) if os.path.isdir(os.path.join(root, d)) and not d.startswith('_'))
+only = sys.argv[1:]  # optional substrings: re-evaluate only these, keep the stored verdict of the others
 def ev(d):
+    if only and not any(a in d for a in only):
+        m = json.load(open(os.path.join(root, d, 'meta.json')))
+        res = dict(m.get('confirmed_by_me') or {})
+        res.update(m.get('checks') or {})
+        return d, res
     r = subprocess.run(['python3', '/verif/tools/seed_eval.py', os.path.join(root, d)], capture_output=True, text=True)
     try:
         return d, json.loads(r.stdout)
